@@ -41,6 +41,8 @@ func vrtRing(maxAvail int64) *vrtRingState {
 	bf.cseq.set(st.c)
 	bf.pseq.set(st.p)
 	bf.pseq.gate = gate
+	// the scratch buffer for chunks that cross the end of the ring still holds an earlier chunk
+	bf.tmp = append(make([]byte, 0, 32), 0xA5, 0xA6, 0xA7, 0xA8, 0xA9)
 	for i := 0; i < vrtW; i++ {
 		b := vrtByte("s")
 		st.s = append(st.s, b)
@@ -230,11 +232,14 @@ func H14_readfrom() {
 }
 
 type vrtSinkWriter struct {
-	bf  *buffer
-	got []byte
+	bf    *buffer
+	got   []byte
+	start int64 // consumer cursor when the drain began
 }
 
 func (w *vrtSinkWriter) Write(b []byte) (int, error) {
+	// while the writer has the block, the ring must not have released it (the slice may alias the ring)
+	vrtAssert("C14.writeto_block_still_owned_by_consumer", w.bf.cseq.get() == w.start+int64(len(w.got)))
 	w.got = append(w.got, b...)
 	w.bf.Close() // the stream ends after this block (otherwise WriteTo waits for more data)
 	return len(b), nil
@@ -244,7 +249,7 @@ func H14_writeto() {
 	st := vrtRing(int64(vrtBound("N14chunk", 4)))
 	bf := st.bf
 	vrtAssume(st.avail >= 1)
-	w := &vrtSinkWriter{bf: bf}
+	w := &vrtSinkWriter{bf: bf, start: st.c}
 	total, err := bf.WriteTo(w)
 	vrtAssert("C14.writeto_result", vrtAnd(total == st.avail, err == io.EOF))
 	vrtAssert("C14.writeto_cursor", vrtAnd(bf.cseq.get() == st.p, bf.pseq.get() == st.p))
